@@ -124,6 +124,9 @@ fn scenario(w: Work) {
     let reloader_expected = w.front == FrontKind::Hot;
     // entries created by get_or_insert (protected whatever their type)
     let mut inserted: BTreeSet<Key> = BTreeSet::new();
+    // keys that some load created in this cache at some time (by a caller or by a nested load of a reload): the
+    // reloader knows them for good, its graph is never pruned
+    let mut ever_loaded: BTreeSet<Key> = BTreeSet::new();
     // values last seen for every protected entry
     let mut pending_note: BTreeSet<String> = BTreeSet::new();
     // &T obtained with Handle::get early: must read the same value at the end
@@ -155,9 +158,16 @@ fn scenario(w: Work) {
                         if pending_note.contains(id) {
                             detsim::count("reach.pass_after_notification_behind_protected_entry");
                         }
-                        let registered = key.as_ref().map(|k| world.model.reg.contains_key(k)).unwrap_or(false);
+                        let registered = key.as_ref().map(|k| world.model.reg.contains_key(k) || ever_loaded.contains(k)).unwrap_or(false);
                         let rule = if key.as_ref().map(|k| inserted.contains(k) && k.0.hot()).unwrap_or(false) && registered && reloader_expected { "C10/get_or_insert-value-rewritten/key-registered-by-a-load" } else { "C10/protected-entry-rewritten" };
                         detsim::check(&v1 == v0 && id1 == *id0 && id1 == 0, rule, || format!("op {i} hot_reload on {:?}: {name} must never be rewritten (get_or_insert value / opted-out type / cache without reloader) but went from {v0:?}/{id0} to {v1:?}/{id1}", w.front));
+                    }
+                }
+                // entries that appeared during the pass were created by nested loads of reloads
+                for name in after.keys().filter(|n| !before.contains_key(*n)) {
+                    let (tyname, id) = name.split_once(' ').unwrap();
+                    if let Some(t) = ALL_TYS.iter().find(|t| format!("{t:?}") == tyname) {
+                        ever_loaded.insert((*t, id.to_string()));
                     }
                 }
                 world.follow_reloads(&all_ids);
